@@ -1,13 +1,15 @@
 (* Dispatch.v -- one entry point per property for the OCaml driver. *)
 From Coq Require Import ZArith List.
 From CiwV Require Import Sx.
-From CiwV Require Acc.C01.
+From CiwV Require Acc.C01 Acc.C02 Acc.C06.
 Import ListNotations.
 Open Scope Z_scope.
 
 Definition dispatch (name : Z) (s : sx) : verdict :=
   match name with
   | 1 => C01.run s
+  | 2 => C02.run s
+  | 6 => C06.run s
   | _ => BadInput (-1)
   end.
 
